@@ -777,6 +777,26 @@ func (e *Env) callMethod(x *ast.CallExpr, recv TV, name string) TV {
 	for _, a := range x.Args {
 		args = append(args, e.eval(a))
 	}
+	if _, isIface := under(recv.T).(*types.Interface); isIface {
+		ikey := "(" + types.TypeString(types.Unalias(recv.T), nil) + ")." + name
+		if ct, ok := e.vc.eng.Contracts[ikey]; ok && ct.Pure {
+			it := under(recv.T).(*types.Interface)
+			for i := 0; i < it.NumMethods(); i++ {
+				if it.Method(i).Name() == name {
+					sig := it.Method(i).Type().(*types.Signature)
+					var avs []Val
+					var ats []types.Type
+					for k, a := range args {
+						avs = append(avs, e.coerce(a, sig.Params().At(k).Type()).V)
+						ats = append(ats, sig.Params().At(k).Type())
+					}
+					rt := sig.Results().At(0).Type()
+					return TV{e.vc.pureApp(ikey, rt, recv.V, types.NewInterfaceType(nil, nil), avs, ats), rt}
+				}
+			}
+		}
+		e.fail(x, "method %s on interface value needs a `pure` interface contract to be used in a contract", name)
+	}
 	res, rt, err := e.vc.pureCall(e.st, recv, name, args)
 	if err != nil {
 		e.fail(x, "%v", err)
@@ -933,6 +953,9 @@ func (e *Env) callSpec(x *ast.CallExpr, sf *SpecFunc) TV {
 		}
 	}
 	rt := sig.Results().At(0).Type()
+	if isGhostStub(sf) || e.vc.opaque[key] {
+		return e.vc.specApp(e, sf, sig, args, rt, false)
+	}
 	if sf.Decl.Body == nil || depth >= 1 {
 		return e.vc.specApp(e, sf, sig, args, rt, depth == 0 && sf.Decl.Body != nil)
 	}
@@ -964,4 +987,25 @@ func sortedKeys(m map[string]string) []string {
 	}
 	sort.Strings(ks)
 	return ks
+}
+
+
+// isGhostStub: a spec function whose body is just panic(...) is an uninterpreted symbol (ghost predicate/function).
+func isGhostStub(sf *SpecFunc) bool {
+	if sf.Decl.Body == nil {
+		return true
+	}
+	if len(sf.Decl.Body.List) != 1 {
+		return false
+	}
+	es, ok := sf.Decl.Body.List[0].(*ast.ExprStmt)
+	if !ok {
+		return false
+	}
+	c, ok := es.X.(*ast.CallExpr)
+	if !ok {
+		return false
+	}
+	id, ok := c.Fun.(*ast.Ident)
+	return ok && id.Name == "panic"
 }
